@@ -100,6 +100,7 @@ type partition struct {
 	name     string
 	cuts     []int
 	withData bool
+	once     bool // the transport reports its error one time only
 	empties  bool
 	final    error
 }
@@ -109,6 +110,7 @@ func partitions(st wiregen.Stream, r *payload.SplitMix, n int) []partition {
 	L := len(st.Data)
 	out = append(out, partition{name: "all", final: io.EOF})
 	out = append(out, partition{name: "all+errWithData", withData: true, final: wiregen.ErrTransport})
+	out = append(out, partition{name: "all+errWithData-reported-once", withData: true, once: true, final: wiregen.ErrTransport})
 	if L <= 300_000 {
 		one := make([]int, 0, L)
 		for i := 1; i < L; i++ {
@@ -133,7 +135,7 @@ func partitions(st wiregen.Stream, r *payload.SplitMix, n int) []partition {
 			p += 1 + r.Intn(k)
 			cuts = append(cuts, p)
 		}
-		out = append(out, partition{name: fmt.Sprintf("rand%d", k), cuts: cuts, withData: r.Intn(2) == 0, empties: r.Intn(2) == 0, final: []error{io.EOF, wiregen.ErrTransport}[r.Intn(2)]})
+		out = append(out, partition{name: fmt.Sprintf("rand%d", k), cuts: cuts, withData: r.Intn(2) == 0, once: r.Intn(2) == 0, empties: r.Intn(2) == 0, final: []error{io.EOF, wiregen.ErrTransport}[r.Intn(2)]})
 	}
 	return out
 }
@@ -185,7 +187,7 @@ func checkStream(id string, seed uint64, max int, nparts int) runner.Result {
 	}
 	classes := map[string]bool{}
 	for pi, p := range parts {
-		sr := &wiregen.Scripted{Data: st.Data, Cuts: p.cuts, Final: p.final, WithData: p.withData}
+		sr := &wiregen.Scripted{Data: st.Data, Cuts: p.cuts, Final: p.final, WithData: p.withData, Once: p.once}
 		if p.empties {
 			sr.Empties = &payload.SplitMix{S: seed + uint64(pi)}
 		}
